@@ -19,7 +19,7 @@ NOT_APPLICABLE = {
 PARTIAL = " Partial claim: only the clauses named in the evidence file (coverage.clauses_decided) are decided; coverage.clauses_not_decided lists the rest of the property, which this family of technique cannot reach."
 
 LEVEL_TEXT = {
-    "C13": "Deductive check (Kani/CBMC) on a statement slice extracted mechanically from convert_rust_extension: for a crate that is NOT configured the type is substituted exactly when the unknown-crate policy (symbolic) is Allow, with the path unchanged; hyphenated crate names are matched against the path's first segment; a path without `::` is never substituted. The configured-crate cells do not terminate and are not decided." + PARTIAL,
+    "C13": "Deductive check (Kani/CBMC) on a statement slice extracted mechanically from convert_rust_extension: for a crate that is NOT configured the type is substituted exactly when the unknown-crate policy (symbolic) is Allow, with the path unchanged; hyphenated crate names are matched against the path's first segment; a path without `::` is never substituted. The configured-crate cells do not terminate and are not decided. Plus a routing obligation on convert_schema_object: the extension is consulted before any structural conversion and its answer replaces the schema's own structure; and TypeEntryNative::name_match on enumerated names." + PARTIAL,
     "C05": "Deductive check (Kani/CBMC) of the generation-time string-length filter against the property's wording (lengths in Unicode scalar values) for every Option<u32> bound pair and every string of at most 2 scalar values (all code points, all UTF-8 widths); bounded in the number of characters, so level `other`, not proof." + PARTIAL,
     "C06": "Deductive check of leaf default validation (type soundness, intrinsic-default and generic-function classification), of enum-default membership and of the property-default classification table over symbolic JSON payloads (all u64 / i64 / finite f64), one harness per type kind; the numeric range clause is C10/P3. Kinds and container shapes are enumerated, so level `other`." + PARTIAL,
     "C07": "Deductive check that the edge relation used by cycle breaking (get_child_ids) is exactly by-value containment and that its slots alias the entry, one harness per kind with symbolic identifiers; vectors of at most 2 children, enum arm not decided (CBMC does not terminate on it). The traversal itself is not verified." + PARTIAL,
